@@ -129,26 +129,23 @@ Definition fold_const (o : opcode) (a b : operand) : fold_res :=
   | Some ao, Some (v1, c1), Some (v2, c2) =>
       let fragment := match binop Strict ao (v1, c1) (v2, c2) with
                       | Ok r => FoldTo (OV r) | Err _ => FoldAbort | OOM => FoldOOM end in
-      match v1 with
-      | VStr _ => match ao, v2 with Add, VStr _ => fragment | _, _ => fragment end
-      | VBool _ => fragment
-      | VInt _ _ =>
-          match v2 with
-          | VInt _ _ =>
-              match normalize v1 true v2 true false with
-              | Ok (VInt k x, VInt _ y) =>
-                  if (ikind_eqb k Int || ikind_eqb k I64) then
-                    match ao with
-                    | Add => FoldTo (OV (VInt k (wrap k (x + y))))
-                    | Sub => FoldTo (OV (VInt k (wrap k (x - y))))
-                    | Mul => FoldTo (OV (VInt k (wrap k (x * y))))
-                    | _ => fragment
-                    end
-                  else fragment
-              | _ => fragment
-              end
+      (* written with a default case so that new value constructors of Arith (floats) take the fragment path,
+         i.e. Arith's own semantics of the opcode, OOM where Arith does not model it *)
+      match v1, v2 with
+      | VInt _ _, VInt _ _ =>
+          match normalize v1 true v2 true false with
+          | Ok (VInt k x, VInt _ y) =>
+              if (ikind_eqb k Int || ikind_eqb k I64) then
+                match ao with
+                | Add => FoldTo (OV (VInt k (wrap k (x + y))))
+                | Sub => FoldTo (OV (VInt k (wrap k (x - y))))
+                | Mul => FoldTo (OV (VInt k (wrap k (x * y))))
+                | _ => fragment
+                end
+              else fragment
           | _ => fragment
           end
+      | _, _ => fragment
       end
   | _, _, _ => FoldOOM
   end.
@@ -269,15 +266,17 @@ Definition do_store (m : mode) (s : st) (n : str) (x : value * bool) : st + fail
   | OOM => inr (err_at s ROOM)
   end.
 
-(* incrementByteCode's Normalize step and type switch (after the repair: bool case) *)
+(* incrementByteCode's Normalize step and type switch.  After the repair (bool case, Add's switch) it is
+   written with Arith.arith; the switch before the repair is kept locally (independent of Arith's cfg
+   records): no bool case *)
+Definition incr_switch_old (v1 v2 : value) : res value :=
+  match v1 with VBool _ => Err EInvalidType | _ => arith Add v1 v2 end.
 Definition increment_sum (fx : fixes) (m : mode) (v : value) (step : value * bool) : res value :=
-  if fx_inc fx then
-    let '(inc, ic) := step in
-    let strict := is_strict m in
-    bind (if negb strict || ic then normalize v false inc ic strict
-          else if kind_eqb (kind_of v) (kind_of inc) then Ok (v, inc) else Err ETypeMismatch)
-         (fun p => arith Add (fst p) (snd p))
-  else increment cfg_now m v step.
+  let '(inc, ic) := step in
+  let strict := is_strict m in
+  bind (if negb strict || ic then normalize v false inc ic strict
+        else if kind_eqb (kind_of v) (kind_of inc) then Ok (v, inc) else Err ETypeMismatch)
+       (fun p => if fx_inc fx then arith Add (fst p) (snd p) else incr_switch_old (fst p) (snd p)).
 
 Definition cmp_of (o : opcode) : option N :=
   match o with LessThan => Some 0%N | LessThanOrEqual => Some 1%N | GreaterThan => Some 2%N
